@@ -207,24 +207,22 @@ def reads_status(n):
 
 
 def classify_store(e):
-    """where does a store through the lvalue e land?  ("field", f): member f of the simulation struct itself;
+    """where does a store through the lvalue e land?  ("field", path): member path (e.g. ri_ias15.N_allocated) of the simulation struct itself;
     ("via", f): memory reached through the pointer member f of the simulation (r->particles[i].x, r->server_data->flag); None: not the simulation"""
     deref = False
+    path = []
     while True:
         k = e.get("kind")
-        if k in ("ParenExpr", "CStyleCastExpr"):
-            e = kids(e)[0]
-        elif k == "ImplicitCastExpr":
-            if e.get("castKind") == "LValueToRValue":
-                deref = deref        # reading a pointer value that is then dereferenced by the parent (handled there)
+        if k in ("ParenExpr", "CStyleCastExpr", "ImplicitCastExpr"):
             e = kids(e)[0]
         elif k == "ArraySubscriptExpr":
             base = kids(e)[0]
             if not (base.get("kind") == "ImplicitCastExpr" and base.get("castKind") == "ArrayToPointerDecay"):
                 deref = True        # subscript of a pointer
+                path = []
             e = base
         elif k == "UnaryOperator" and e.get("opcode") == "*":
-            deref = True
+            deref = True; path = []
             e = kids(e)[0]
         elif k == "UnaryOperator" and e.get("opcode") == "&":
             e = kids(e)[0]
@@ -232,8 +230,12 @@ def classify_store(e):
             base = kids(e)[0]
             if e.get("isArrow"):
                 if is_simptr(strip(base)) or is_simptr(base):
-                    return ("via" if deref else "field", e.get("name"))
-                deref = True
+                    if deref:
+                        return ("via", e.get("name"))
+                    return ("field", ".".join([e.get("name")] + path))
+                deref = True; path = []
+            else:
+                path = [e.get("name")] + path
             e = base
         else:
             return None
@@ -355,6 +357,70 @@ def teardown_sequence(stmts, where):
                 seen.append(l)
         out += seen
     return out
+
+
+def show_expr(e):
+    """canonical text of a (simple) C expression, for tying an audited statement to the source"""
+    k = e.get("kind")
+    c = kids(e)
+    if k in ("ImplicitCastExpr", "CStyleCastExpr"):
+        return show_expr(c[0])
+    if k == "ParenExpr":
+        return "(" + show_expr(c[0]) + ")"
+    if k == "BinaryOperator":
+        return "%s %s %s" % (show_expr(c[0]), e.get("opcode"), show_expr(c[1]))
+    if k == "UnaryOperator":
+        return (show_expr(c[0]) + e.get("opcode")) if e.get("isPostfix") else (e.get("opcode") + show_expr(c[0]))
+    if k == "MemberExpr":
+        return show_expr(c[0]) + ("->" if e.get("isArrow") else ".") + e.get("name")
+    if k == "DeclRefExpr":
+        return e.get("referencedDecl", {}).get("name", "?")
+    if k == "IntegerLiteral":
+        return str(e.get("value"))
+    fail("show_expr: %s not supported" % k)
+
+
+class LazyBodies(dict):
+    """name -> body of a function defined in any translation unit linked into the library; translation units are dumped on demand
+    (the file that defines a function is located by its text, then confirmed by the AST)"""
+    def __init__(self):
+        super().__init__()
+        import vlib
+        self.files = [n + ".c" for n in vlib.LIB_SOURCES]
+        self.text = {f: open(os.path.join(SRC, f)).read() for f in self.files}
+        self.loaded = set()
+        self.missing = set()
+        self.owner = {}
+
+    def load(self, f):
+        if f in self.loaded:
+            return
+        self.loaded.add(f)
+        a = ast_of(f)
+        for fn in a["inner"]:
+            if fn.get("kind") == "FunctionDecl":
+                b = [x for x in fn.get("inner", []) if x.get("kind") == "CompoundStmt"]
+                if b and not (fn["name"] in self and fn.get("storageClass") == "static"):
+                    dict.__setitem__(self, fn["name"], b[0]); self.owner[fn["name"]] = f
+
+    def __contains__(self, name):
+        if dict.__contains__(self, name):
+            return True
+        if name in self.missing or not re.match(r"^[A-Za-z_]\w*$", name or ""):
+            return False
+        pat = re.compile(r"^[A-Za-z_][\w\s\*]*\b%s\s*\([^;{]*\)\s*\{" % re.escape(name), re.M)
+        for f in self.files:
+            if f not in self.loaded and pat.search(self.text[f]):
+                self.load(f)
+                if dict.__contains__(self, name):
+                    return True
+        self.missing.add(name)
+        return False
+
+    def __getitem__(self, name):
+        if name in self:
+            return dict.__getitem__(self, name)
+        raise KeyError(name)
 
 
 def compute_syncfuns(ast, exclude):
@@ -696,7 +762,43 @@ def main():
                 if y.get("kind") in ("IntegerLiteral", "CharacterLiteral") and "value" in y:
                     keyboard_keys.append(int(y["value"])); break
     keyboard_keys = sorted(set(keyboard_keys))
-    out = {"keyboard_keys": keyboard_keys, "double_close_sites": double_close, "prologue": pro, "heads": heads, "steps_body": steps_body, "body": lbody, "sync_helpers": sync_helpers_rebound, "epilogue": epi, "handlers": handlers, "server_startup_writes": startup_writes}
+    # ------------------------------------------------------------------ the serializer must not write the simulation
+    gbodies = LazyBodies()
+    ser_eff, ser_ext = set(), set()
+    effects_of(gbodies["reb_simulation_save_to_stream"], gbodies, ser_eff, ser_ext, {"reb_simulation_save_to_stream"})
+    diff_eff, diff_ext = set(), set()
+    effects_of(gbodies["reb_binary_diff"], gbodies, diff_eff, diff_ext, {"reb_binary_diff"})
+    # the audited exception: the IAS15 "compress before writing" statement, tied to the source text
+    comp = []
+    for x in walk(gbodies["reb_simulation_save_to_stream"]):
+        if x.get("kind") == "IfStmt":
+            c_ = kids(x)
+            stores = [y for y in walk(c_[1]) if y.get("kind") == "BinaryOperator" and y.get("opcode") == "=" and classify_store(kids(y)[0])]
+            if stores:
+                if len(stores) != 1 or len(c_) != 2:
+                    fail("save_to_stream: a conditional with simulation stores of an unexpected shape")
+                comp.append((show_expr(c_[0]), show_expr(kids(stores[0])[0]), show_expr(kids(stores[0])[1])))
+    top_stores = [y for st in kids(gbodies["reb_simulation_save_to_stream"]) if st.get("kind") != "IfStmt" for y in walk(st)
+                  if y.get("kind") in ("BinaryOperator", "CompoundAssignOperator", "UnaryOperator") and
+                  ((y.get("kind") == "UnaryOperator" and y.get("opcode") in ("++", "--") and classify_store(kids(y)[0])) or
+                   (y.get("kind") != "UnaryOperator" and (y.get("kind") == "CompoundAssignOperator" or y.get("opcode") == "=") and classify_store(kids(y)[0])))]
+    # the consumer of N_allocated: the IAS15 allocation test (re-allocates and zeroes the summation arrays) and what N3 can be
+    gbodies.load("integrator_ias15.c")
+    alloc = []
+    n3_values = []
+    for fname, fb in list(gbodies.items()):
+        if gbodies.owner.get(fname) != "integrator_ias15.c":
+            continue
+        for x in walk(fb):
+            if x.get("kind") == "IfStmt":
+                c_ = kids(x)
+                for y in kids(c_[1]) if c_[1].get("kind") == "CompoundStmt" else [c_[1]]:
+                    if y.get("kind") == "BinaryOperator" and y.get("opcode") == "=" and classify_store(kids(y)[0]) == ("field", "ri_ias15.N_allocated"):
+                        alloc.append((fname, show_expr(c_[0]), show_expr(kids(y)[1])))
+            if x.get("kind") == "BinaryOperator" and x.get("opcode") == "=" and strip(kids(x)[0]).get("kind") == "DeclRefExpr" \
+                    and strip(kids(x)[0]).get("referencedDecl", {}).get("name") == "N3":
+                n3_values.append(show_expr(kids(x)[1]))
+    out = {"serializer_effects": sorted(ser_eff), "serializer_stores": comp, "keyboard_keys": keyboard_keys, "double_close_sites": double_close, "prologue": pro, "heads": heads, "steps_body": steps_body, "body": lbody, "sync_helpers": sync_helpers_rebound, "epilogue": epi, "handlers": handlers, "server_startup_writes": startup_writes}
     os.makedirs(os.path.dirname(OUTJ), exist_ok=True)
     json.dump(out, open(OUTJ, "w"), indent=1)
     coq = ["(* GENERATED by tools/translate_lockproto.py from $VERIF_REPO/src/rebound.c, server.c — do not edit. *)",
@@ -730,6 +832,15 @@ def main():
            "Definition steps_loop_body : list act := %s." % coq_list(steps_body),
            "Definition handlers : list (string * list act) := [\n  %s]." % ";\n  ".join("(%s, %s)" % (qs(h), coq_list(a)) for h, a in handlers),
            "(* simulation writes of the server thread before it accepts requests (message buffer), not part of the modelled programs *)",
+           "(* effects (field:path / via:f / opaque:g / extptr:f:g) of reb_simulation_save_to_stream and of everything it calls, across all linked files *)",
+           "Definition serializer_effects : list string := [%s]." % "; ".join(qs(x) for x in sorted(ser_eff)),
+           "Definition binary_diff_effects : list string := [%s]." % "; ".join(qs(x) for x in sorted(diff_eff)),
+           "(* every store to the simulation inside reb_simulation_save_to_stream itself: (condition, target, value) as source text; unconditional ones: %d *)" % len(top_stores),
+           "Definition serializer_stores : list (string * string * string) := [%s]." % "; ".join("(%s, %s, %s)" % tuple(qs(t) for t in c) for c in comp),
+           "Definition serializer_unconditional_stores : nat := %d." % len(top_stores),
+           "(* integrator_ias15.c: (function, condition, value) of every conditional store to ri_ias15.N_allocated, and every value assigned to N3 *)",
+           "Definition ias15_alloc_stores : list (string * string * string) := [%s]." % "; ".join("(%s, %s, %s)" % tuple(qs(t) for t in c) for c in alloc),
+           "Definition ias15_N3_values : list string := [%s]." % "; ".join(qs(v) for v in sorted(set(n3_values))),
            "(* key codes with a case label in the /keyboard/ handler *)",
            "Definition keyboard_keys : list nat := [%s]." % "; ".join(str(k) for k in keyboard_keys),
            "(* places where the request loop closes a connection descriptor twice: fclose(fdopen(fd)) followed by close(fd) *)",
